@@ -15,6 +15,9 @@ rsync -a --delete --exclude target ${HARNESS_SRC:-/verif/harness}/ $E/harness/; 
 sed -i "s#/repo/#$E/repo/#g" $E/harness/Cargo.toml $E/harness/build.rs
 cd $E/harness || exit 2
 if ! CARGO_NET_OFFLINE=true CARGO_TARGET_DIR=$E/target cargo build --release --offline >$E/build.log 2>&1; then echo "build failed"; tail -30 $E/build.log; exit 2; fi
+rsync -a --delete --exclude target /verif/deepbin/ $E/deepbin/; sed -i "s#/repo/#$E/repo/#g" $E/deepbin/Cargo.toml
+if ! (cd $E/deepbin && CARGO_NET_OFFLINE=true CARGO_TARGET_DIR=$E/target-deep cargo build --offline >$E/build-deep.log 2>&1); then echo "deepbin build failed"; tail -20 $E/build-deep.log; exit 2; fi
+export VERIF_DEEP_BIN=$E/target-deep/debug/deep
 cd /verif
 for c in "$@"; do
   out=$($E/target/release/mc $c --tier $TIER 2>&1); code=$?
